@@ -548,11 +548,16 @@ def _multi_effective(ctx, ex, what):
             sts = cm.trains_of(r)
             import contextlib
             import io
+            # a value matters if leaving it out changes the result, or if a mis-scaled value (half, double -- the
+            # classic slips with max_tau's factor 2 and MRTS's factor 4) would: max_tau = 2 on a recording of length 4
+            # never binds, but max_tau/2 does, so it still separates right from wrong handling of the keyword
+            v = fr(r[kw])
+            alts = [[0, 1], [v.numerator, 2 * v.denominator], [2 * v.numerator, v.denominator]]
             with contextlib.redirect_stdout(io.StringIO()):      # the library prints debug output
                 s1, a = impl.call(cm.invoke, r, sts, "idx")
-                s0, b = impl.call(cm.invoke, dict(r, **{kw: [0, 1]}), sts, "idx")
+                others = [impl.call(cm.invoke, dict(r, **{kw: alt}), sts, "idx") for alt in alts]
             tried += 1
-            if s1 == "ok" and s0 == "ok" and not cm.equal_results(cm.norm_result(r, a), cm.norm_result(r, b)):
+            if s1 == "ok" and any(s0 == "ok" and not cm.equal_results(cm.norm_result(r, a), cm.norm_result(r, b)) for s0, b in others):
                 diff += 1
         note = ctx.notes.setdefault("effective_keyword_values", {})
         note["Multi[%s]/%s=%s" % (what[:40], kw, fr(ex[0][kw]))] = {"calls_tried": tried, "result_changed": diff}
@@ -566,7 +571,7 @@ def c05(ctx):
     fns = ["isi_distance", "spike_distance", "sync", "order"]
     q = ctx.tier == QUICK
     runs = [dict(N=3, TE=4, MaxSp=2, IvCodes="{0, 105, 208, 307}", Sample=0 if not q else 8),
-            dict(N=3, TE=4, MaxSp=2, IvCodes="{0, 206}", Sample=4 if q else 8, IdxMode='"all"', TAU4=4),
+            dict(N=3, TE=4, MaxSp=2, IvCodes="{0, 206}", Sample=4 if q else 8, IdxMode='"all"', TAU4=8),
             dict(N=2, TE=4, MaxSp=3, IvCodes="{0, 3, 204, 508, 8}", IdxMode='"none"', MRTS4=12, TAU4=4, RIFlag="TRUE"),
             dict(N=4, TE=4, MaxSp=2, IvCodes="{0, 206}", Sample=4 if q else 7, MRTS4=24)]
     if not q:
@@ -616,11 +621,11 @@ def c14(ctx):
     q = ctx.tier == QUICK
     fns = ["isi_profile", "spike_profile", "sync_profile", "order_profile", "isi_distance", "spike_distance", "sync",
            "order", "isi_matrix", "spike_matrix", "sync_matrix", "dir_matrix", "dir_values"]
-    _multi(ctx, dict(N=3, IdxMode='"all"', Sample=5 if q else 10, IvCodes="{0, 206}"), fns, [], ["multi_forms", "multi_abs"],
+    _multi(ctx, dict(N=3, IdxMode='"all"', Sample=5 if q else 7, IvCodes="{0, 206}"), fns, [], ["multi_forms", "multi_abs"],
            "every ordered index selection of size >= 2")
-    _multi(ctx, dict(N=4, IdxMode='"all"', Sample=2 if q else 4, MRTS4=12, TAU4=4, RIFlag="TRUE"), fns, [],
+    _multi(ctx, dict(N=4, IdxMode='"all"', Sample=2 if q else 3, MRTS4=12, TAU4=0, RIFlag="TRUE"), fns, [],
            ["multi_forms", "multi_abs"], "N = 4: 60 ordered selections")
-    _multi(ctx, dict(N=3, IdxMode='"all"', Sample=4 if q else 8, MRTS4=24, TAU4=0, RIFlag="TRUE", IvCodes="{0, 105}"), fns, [],
+    _multi(ctx, dict(N=3, IdxMode='"all"', Sample=4 if q else 6, MRTS4=24, TAU4=0, RIFlag="TRUE", IvCodes="{0, 105}"), fns, [],
            ["multi_forms", "multi_abs"], "keywords that matter (MRTS = 6: window floor 1.5, RI) through every form")
     _multi(ctx, dict(N=5, IdxMode='"perms"', Sample=1 if q else 2, MRTS4=24), ["isi_profile", "sync_profile", "order_profile", "isi_distance"],
            [], ["multi_forms", "multi_abs"], "N = 5: every ordering of the whole list as index selection (10 pairs, recursive halving)")
@@ -691,7 +696,7 @@ def c18(ctx):
             dict(N=3, PoolMode='"deg"', IvCodes="{0, 206}", Sample=0 if not q else 5),
             dict(N=3, PoolMode='"deg"', MRTS4=12, TAU4=4, RIFlag="TRUE", Sample=0 if not q else 5),
             dict(N=4, PoolMode='"deg"', Sample=3 if q else 6, IdxMode='"none"'),
-            dict(N=3, PoolMode='"deg"', Sample=4 if q else 0, IdxMode='"all"', TAU4=4),
+            dict(N=3, PoolMode='"deg"', Sample=4 if q else 0, IdxMode='"all"', TAU4=8),
             dict(N=3, MaxSp=3, TE=5, Sample=6 if q else 12, IvCodes="{0, 307}", MRTS4=10, TAU4=0)]
     for r in runs:
         _multi(ctx, r, ALL_FNS, [], ["multi_wf"], "every entry point on lists of degenerate trains: well-formed result", chunk=200)
